@@ -35,9 +35,10 @@ def cases(tier, seed):
         kind = 'small-strict' if k < 4 else 'small-ext' if k < 7 else 'corpus' if k < 8 else 'union'
         out.append({'prop': ID, 'seed': seed, 'idx': i, 'kind': kind, 'engines': eng, 'unusable': bad,
                     'tier': tier})
-    order = {'corpus': 0, 'union': 1, 'small-ext': 2, 'small-strict': 3}
-    out.sort(key=lambda c: order[c['kind']])
-    return out
+    big = [c for c in out if c['kind'] in ('corpus', 'union')]
+    head = big[:100]
+    hs = {id(c) for c in head}
+    return head + [c for c in out if id(c) not in hs]
 
 
 def run_case(case):
